@@ -50,6 +50,7 @@ class Report:
     def __init__(self, pid):
         self.pid = pid
         self.findings = []
+        self.log = []
         self.obligations = 0
         self.discharged = 0
         self.instances = {}      # rule -> count of rule instances checked
@@ -63,6 +64,7 @@ class Report:
 
     def ob(self, rule, key, ok, msg, site=None, sample=None):
         """one obligation / rule instance"""
+        self.log.append((rule, key, ok, msg, site))
         self.obligations += 1
         self.instances[rule] = self.instances.get(rule, 0) + 1
         if ok:
@@ -198,3 +200,33 @@ def find_impl_fn(prog, trait, self_s, arg_s, name):
             continue
         return b
     return None
+
+
+def include(rep, env, tier, module_name, rule_prefixes, as_rule, why):
+    """Run another property's rule module and take over the obligations of the named rule families: they decide a
+    clause of this property too (e.g. the decoder rules for 'and decode back unchanged').  The obligations are
+    re-keyed under `as_rule`, so a finding is reported (and suppressed, if ever listed) per property."""
+    import importlib
+    if getattr(env, "including", False):
+        return      # an included module does not include further ones
+    mod = importlib.import_module("rules." + module_name)
+    sub = Report(rep.pid)
+    env.including = True
+    try:
+        mod.check(env, sub, tier)
+    except Exception as e:  # fail closed
+        rep.ob(as_rule, "crash|" + type(e).__name__, False, "checker error in included rules %s (fail closed): %s" % (module_name, e))
+        return
+    finally:
+        env.including = False
+    n = 0
+    for rule, key, ok, msg, site in sub.log:
+        if rule in rule_prefixes:
+            rep.ob("%s(%s)" % (as_rule, rule), key, ok, msg, site)
+            n += 1
+    rep.analysed.update(sub.analysed)
+    for k, v in sub.lemmas.items():
+        rep.lemmas[k] = rep.lemmas.get(k, 0) + v
+    rep.notes.append("%s: %d obligations of %s taken over from rules.%s - %s" % (as_rule, n, "/".join(rule_prefixes), module_name, why))
+    if n == 0:
+        rep.ob(as_rule, "missing|included rules", False, "mechanism missing: no obligation of %s produced by rules.%s" % (rule_prefixes, module_name))
